@@ -36,6 +36,8 @@ def _eval_job(H, job):
             return out
     try:
         r = eval(job["body"], env)
+        if isinstance(r, dict) and "found" in r:
+            out["found"] = r["found"]
         out["result"] = bool(r)
     except Exception as e:
         out["exc"] = "%s: %s" % (type(e).__name__, e)
